@@ -49,6 +49,10 @@ Merge(a, b) ==
   ELSE IF b = "string" /\ a \in {"date", "datetime", "file"} THEN a
   ELSE ERR
 
+\* both members INLINE: each builds its enum under the same derived class name (composed model + property name) before anything is merged,
+\* and two enums with one name and different values are refused ("same name but different values") - the composed model is dropped
+MergeInline(a, b) == IF a \in Enums /\ b \in Enums /\ a # b THEN ERR ELSE Merge(a, b)
+
 \* ------------------------------------------------------------------ declarative: the narrowing order
 RECURSIVE Narrower(_, _)
 IsList(k) == TypeClass(k) = "List"
